@@ -65,6 +65,43 @@ def orthonormal(ctx: Ctx, rule: str):
                    + ("" if st else (" -- REFUTED: " if st is False else " -- not established: ") + why),
                    node=r.ret_node, status=why)
     ctx.floor(rule, n_paths, 2, "paths of the frame builder with a recognised frame")
+    lab_axis_choice(ctx, rule)
+
+
+def lab_axis_choice(ctx: Ctx, rule: str):
+    """On the collinear path a lab axis may complete the frame only if it cannot be parallel to the first
+    vector: accepted idiom = the axis of the smallest *absolute* component."""
+    f = frame_func(ctx)
+    for r in results(ctx):
+        if not r.degenerate or r.frame is None:
+            continue
+        for v in r.frame:
+            lp = getattr(v, "lab_partner", None)
+            if lp is None or lp.lab_index is None:
+                continue
+            idx = lp.lab_index
+            txt = norm(idx).replace(" ", "")
+            e1 = None
+            for vid in (v.cross or ()):
+                w = r.vecs.get(vid)
+                if w is not None and w is not lp:
+                    e1 = w
+            ok_forms = ("np.argmin(np.abs(", "np.abs(", "np.argmin(abs(", "np.argmin(np.fabs(", "np.argsort(np.abs(")
+            good = txt.startswith(ok_forms) and ("argmin" in txt or txt.endswith("[0]"))
+            bad = txt.startswith(("np.argmin(", "np.argmax(")) and "abs" not in txt or "argmax" in txt
+            if good:
+                ctx.ob(rule, f, "collinear path: lab axis index %s" % norm(idx), True,
+                       "the completing lab axis is the one along which the first vector has its smallest absolute "
+                       "component (|component| <= 1/sqrt(3) < 1, so it is never parallel to it)", node=idx)
+            elif bad:
+                ctx.ob(rule, f, "collinear path: lab axis index %s" % norm(idx), False,
+                       "the completing lab axis must not be parallel to the first vector -- `%s` can select the axis the "
+                       "first vector lies on (signed minimum / maximum), the cross product is then zero and its "
+                       "normalisation NaN" % norm(idx), node=idx)
+            else:
+                ctx.ob(rule, f, "collinear path: lab axis index %s" % norm(idx), True,
+                       "choice of the completing lab axis not in a recognised form; non-parallelism not decided",
+                       undecided=True, node=idx)
 
 
 def right_handed_and_anchored(ctx: Ctx, rule_h: str, rule_a: str):
